@@ -928,4 +928,409 @@ theorem noWriteOps_sound {α} {p : Prog α} (hp : NoWriteOps p) :
         | ok u => simp only at hr; cases hr; exact key hc
         | error e' => simp only at hr; split at hr <;> cases hr <;> exact key hc
 
+/-! ### C13: read-only reasoning — programs that neither write nor update the file-system state
+
+`QuietOps p`: no `write` and no `setFs` node. `RO fs0 p Post`: a Hoare-style judgement — run on a device whose
+mounted state is `fs0`, `p` leaves image, write log and mounted state unchanged and a successful result satisfies
+`Post`. `QuietOps` is the syntactic leaf rule; `RO.bind`/`RO.tryCatch`/`RO.finallyDrop` compose. -/
+
+def Op.isQuiet : Op → Bool
+  | .write _ => false
+  | .setFs _ => false
+  | _ => true
+
+inductive QuietOps : {α : Type} → Prog α → Prop where
+  | pure {α} (a : α) : QuietOps (Prog.pure a)
+  | fail {α} (e : Err) : QuietOps (Prog.fail (α := α) e)
+  | op (o : Op) : o.isQuiet = true → QuietOps (Prog.op o)
+  | bind {α β} (p : Prog β) (k : β → Prog α) : QuietOps p → (∀ b, QuietOps (k b)) → QuietOps (Prog.bind p k)
+  | tryCatch {α} (p : Prog α) (h : Err → Prog α) : QuietOps p → (∀ e, QuietOps (h e)) →
+      QuietOps (Prog.tryCatch p h)
+  | finallyDrop {α} (p : Prog α) (c : Option α → Prog Unit) : QuietOps p → (∀ o, QuietOps (c o)) →
+      QuietOps (Prog.finallyDrop p c)
+
+theorem QuietOps.noWriteOps {α} {p : Prog α} (hp : QuietOps p) : NoWriteOps p := by
+  induction hp with
+  | pure a => exact .pure a
+  | fail e => exact .fail e
+  | op o ho => exact .op o (by cases o <;> simp_all [Op.isQuiet, Op.isWrite])
+  | bind p k _ _ ihp ihk => exact .bind p k ihp ihk
+  | tryCatch p h _ _ ihp ihh => exact .tryCatch p h ihp ihh
+  | finallyDrop p c _ _ ihp ihc => exact .finallyDrop p c ihp ihc
+
+theorem stepOp_quiet_fs (o : Op) (ho : o.isQuiet = true) (d : Dev) {r d'} (hr : stepOp o d = (r, d')) :
+    d'.fs = d.fs := by
+  have hcnt : ∀ k, (d.count k).fs = d.fs := by
+    intro k; unfold Dev.count; cases k <;> simp
+  have dc : ∀ {β} (k : CallKind) (act : Dev → Except Err β × Dev),
+      (∀ d0 r d1, act d0 = (r, d1) → d1.fs = d0.fs) →
+      ∀ {r d'}, devCall k d act = (r, d') → d'.fs = d.fs := by
+    intro β k act hact r d' h
+    unfold devCall devCallCore at h
+    split at h
+    · cases h; exact hcnt k
+    · exact (hact _ _ _ h).trans (hcnt k)
+  cases o with
+  | write bs => cases ho
+  | setFs fs => cases ho
+  | read n => simp only [stepOp] at hr; exact dc _ _ (by intro d0 r d1 h; cases h; rfl) hr
+  | seek p =>
+    simp only [stepOp] at hr
+    refine dc _ _ ?_ hr
+    intro d0 r d1 h
+    cases p with
+    | start n => cases h; rfl
+    | cur x => simp only at h; split at h <;> cases h <;> rfl
+    | fromEnd x => simp only at h; split at h <;> cases h <;> rfl
+  | flush => simp only [stepOp] at hr; exact dc _ _ (by intro d0 r d1 h; cases h; rfl) hr
+  | now => simp only [stepOp] at hr; cases hr; split <;> rfl
+  | today => simp only [stepOp] at hr; cases hr; split <;> rfl
+  | getFs => simp only [stepOp] at hr; cases hr; rfl
+
+theorem quietOps_fs {α} {p : Prog α} (hp : QuietOps p) :
+    ∀ (d : Dev) {r d'}, run p d = (r, d') → d'.fs = d.fs := by
+  induction hp with
+  | pure a => intro d r d' hr; simp only [run] at hr; cases hr; rfl
+  | fail e => intro d r d' hr; simp only [run] at hr; cases hr; rfl
+  | op o ho => intro d r d' hr; simp only [run] at hr; exact stepOp_quiet_fs o ho d hr
+  | bind p k _ _ ihp ihk =>
+    intro d r d' hr
+    simp only [run] at hr
+    rcases hp : run p d with ⟨rp, d1⟩
+    rw [hp] at hr
+    cases rp with
+    | ok b => exact (ihk b d1 hr).trans (ihp d hp)
+    | error e => simp only at hr; cases hr; exact ihp d hp
+  | tryCatch p h _ _ ihp ihh =>
+    intro d r d' hr
+    simp only [run] at hr
+    rcases hp : run p d with ⟨rp, d1⟩
+    rw [hp] at hr
+    cases rp with
+    | ok a => simp only at hr; cases hr; exact ihp d hp
+    | error e =>
+      simp only at hr
+      split at hr
+      · cases hr; exact ihp d hp
+      · exact (ihh e d1 hr).trans (ihp d hp)
+  | finallyDrop p c _ _ ihp ihc =>
+    intro d r d' hr
+    simp only [run] at hr
+    rcases hp : run p d with ⟨rp, d1⟩
+    rw [hp] at hr
+    have key : ∀ {o rc d2}, run (c o) { d1 with dropDepth := d1.dropDepth + 1 } = (rc, d2) →
+        ({ d2 with dropDepth := d2.dropDepth - 1 } : Dev).fs = d.fs := by
+      intro o rc d2 hc
+      have := ihc o _ hc
+      simp only at this ⊢
+      exact this.trans (ihp d hp)
+    cases rp with
+    | ok a =>
+      simp only at hr
+      rcases hc : run (c (some a)) { d1 with dropDepth := d1.dropDepth + 1 } with ⟨rc, d2⟩
+      rw [hc] at hr
+      cases rc with
+      | ok u => simp only at hr; cases hr; exact key hc
+      | error e' => simp only at hr; split at hr <;> cases hr <;> exact key hc
+    | error e =>
+      simp only at hr
+      split at hr
+      · cases hr; exact ihp d hp
+      · rcases hc : run (c none) { d1 with dropDepth := d1.dropDepth + 1 } with ⟨rc, d2⟩
+        rw [hc] at hr
+        cases rc with
+        | ok u => simp only at hr; cases hr; exact key hc
+        | error e' => simp only at hr; split at hr <;> cases hr <;> exact key hc
+
+theorem SameWrites.refl (d : Dev) : SameWrites d d := ⟨rfl, rfl⟩
+
+/-- read-only judgement relative to the mounted state `fs0` -/
+structure RO {α} (fs0 : FsState) (p : Prog α) (Post : α → Prop) : Prop where
+  out : ∀ (d : Dev) (r : Except Err α) (d' : Dev), d.fs = fs0 → run p d = (r, d') →
+    SameWrites d d' ∧ d'.fs = fs0 ∧ ∀ v, r = .ok v → Post v
+
+theorem RO.of_quiet {α} {fs0 : FsState} {p : Prog α} (hp : QuietOps p) : RO fs0 p (fun _ => True) :=
+  ⟨fun d _ _ hfs hr => ⟨noWriteOps_sound hp.noWriteOps d hr, (quietOps_fs hp d hr).trans hfs, fun _ _ => trivial⟩⟩
+
+theorem RO.weaken {α} {fs0 : FsState} {p : Prog α} {Q Post : α → Prop} (h : RO fs0 p Q) (hq : ∀ v, Q v → Post v) :
+    RO fs0 p Post :=
+  ⟨fun d r d' hfs hr => ⟨(h.out d r d' hfs hr).1, (h.out d r d' hfs hr).2.1, fun v hv => hq v ((h.out d r d' hfs hr).2.2 v hv)⟩⟩
+
+theorem RO.pure {α} {fs0 : FsState} {Post : α → Prop} {a : α} (h : Post a) : RO fs0 (Prog.pure a) Post := by
+  refine ⟨fun d r d' hfs hr => ?_⟩; simp only [run] at hr; cases hr
+  exact ⟨SameWrites.refl _, hfs, fun v hv => by cases hv; exact h⟩
+
+theorem RO.fail {α} {fs0 : FsState} {Post : α → Prop} (e : Err) : RO fs0 (Prog.fail (α := α) e) Post := by
+  refine ⟨fun d r d' hfs hr => ?_⟩; simp only [run] at hr; cases hr
+  exact ⟨SameWrites.refl _, hfs, fun v hv => by cases hv⟩
+
+/-- reading the mounted state returns `fs0` -/
+theorem RO.getFs {fs0 : FsState} : RO fs0 Prog.getFs (fun v => v = fs0) := by
+  refine ⟨fun d r d' hfs hr => ?_⟩; simp only [Prog.getFs, run, stepOp] at hr; cases hr
+  exact ⟨SameWrites.refl _, hfs, fun v hv => by cases hv; exact hfs⟩
+
+theorem RO.bind {α β} {fs0 : FsState} {p : Prog β} {k : β → Prog α} {Q : β → Prop} {Post : α → Prop}
+    (hp : RO fs0 p Q) (hk : ∀ b, Q b → RO fs0 (k b) Post) : RO fs0 (Prog.bind p k) Post := by
+  refine ⟨fun d r d' hfs hr => ?_⟩
+  simp only [run] at hr
+  rcases hq : run p d with ⟨rp, d1⟩
+  rw [hq] at hr
+  have h1 := hp.out d _ _ hfs hq
+  cases rp with
+  | ok b =>
+    have h2 := (hk b (h1.2.2 b rfl)).out d1 _ _ h1.2.1 hr
+    exact ⟨h1.1.trans h2.1, h2.2.1, h2.2.2⟩
+  | error e => simp only at hr; cases hr; exact ⟨h1.1, h1.2.1, fun v hv => by cases hv⟩
+
+theorem RO.tryCatch {α} {fs0 : FsState} {p : Prog α} {h : Err → Prog α} {Post : α → Prop}
+    (hp : RO fs0 p Post) (hh : ∀ e, RO fs0 (h e) Post) : RO fs0 (Prog.tryCatch p h) Post := by
+  refine ⟨fun d r d' hfs hr => ?_⟩
+  simp only [run] at hr
+  rcases hq : run p d with ⟨rp, d1⟩
+  rw [hq] at hr
+  have h1 := hp.out d _ _ hfs hq
+  cases rp with
+  | ok a => simp only at hr; cases hr; exact h1
+  | error e =>
+    simp only at hr
+    split at hr
+    · cases hr; exact h1
+    · have h2 := (hh e).out d1 _ _ h1.2.1 hr
+      exact ⟨h1.1.trans h2.1, h2.2.1, h2.2.2⟩
+
+/-- scope exit: the destructor bodies must be read-only on the values that actually go out of scope -/
+theorem RO.finallyDrop {α} {fs0 : FsState} {p : Prog α} {c : Option α → Prog Unit} {Post : α → Prop}
+    (hp : RO fs0 p Post) (hsome : ∀ a, Post a → RO fs0 (c (some a)) (fun _ => True))
+    (hnone : RO fs0 (c none) (fun _ => True)) : RO fs0 (Prog.finallyDrop p c) Post := by
+  refine ⟨fun d r d' hfs hr => ?_⟩
+  simp only [run] at hr
+  rcases hq : run p d with ⟨rp, d1⟩
+  rw [hq] at hr
+  have h1 := hp.out d _ _ hfs hq
+  have key : ∀ {o rc d2}, RO fs0 (c o) (fun _ => True) →
+      run (c o) { d1 with dropDepth := d1.dropDepth + 1 } = (rc, d2) →
+      SameWrites d { d2 with dropDepth := d2.dropDepth - 1 } ∧
+        ({ d2 with dropDepth := d2.dropDepth - 1 } : Dev).fs = fs0 := by
+    intro o rc d2 hro hc
+    have h2 := hro.out { d1 with dropDepth := d1.dropDepth + 1 } _ _ h1.2.1 hc
+    exact ⟨(h1.1.trans ((sameWrites_depth d1 _).trans h2.1)).trans (sameWrites_depth d2 _), h2.2.1⟩
+  cases rp with
+  | ok a =>
+    have hro := hsome a (h1.2.2 a rfl)
+    simp only at hr
+    rcases hc : run (c (some a)) { d1 with dropDepth := d1.dropDepth + 1 } with ⟨rc, d2⟩
+    rw [hc] at hr
+    have hk := key hro hc
+    cases rc with
+    | ok u => simp only at hr; cases hr; exact ⟨hk.1, hk.2, fun v hv => by cases hv; exact h1.2.2 a rfl⟩
+    | error e' =>
+      simp only at hr
+      split at hr <;> cases hr
+      · exact ⟨hk.1, hk.2, fun v hv => by cases hv⟩
+      · exact ⟨hk.1, hk.2, fun v hv => by cases hv; exact h1.2.2 a rfl⟩
+  | error e =>
+    simp only at hr
+    split at hr
+    · cases hr; exact ⟨h1.1, h1.2.1, fun v hv => by cases hv⟩
+    · rcases hc : run (c none) { d1 with dropDepth := d1.dropDepth + 1 } with ⟨rc, d2⟩
+      rw [hc] at hr
+      have hk := key hnone hc
+      cases rc with
+      | ok u => simp only at hr; cases hr; exact ⟨hk.1, hk.2, fun v hv => by cases hv⟩
+      | error e' => simp only at hr; split at hr <;> cases hr <;> exact ⟨hk.1, hk.2, fun v hv => by cases hv⟩
+
+/-- "writes nothing" with tracking of the mounted state: started in state `fs0`, `p` leaves image and write log
+    unchanged, and a successful result `v` together with the final mounted state satisfies `Post`. (`RO` is the special
+    case in which the mounted state stays `fs0`.) -/
+structure NW {α} (fs0 : FsState) (p : Prog α) (Post : α → FsState → Prop) : Prop where
+  out : ∀ (d : Dev) (r : Except Err α) (d' : Dev), d.fs = fs0 → run p d = (r, d') →
+    SameWrites d d' ∧ ∀ v, r = .ok v → Post v d'.fs
+
+theorem NW.of_ro {α} {fs0 : FsState} {p : Prog α} {Q : α → Prop} (h : RO fs0 p Q) :
+    NW fs0 p (fun v fs1 => Q v ∧ fs1 = fs0) :=
+  ⟨fun d r d' hfs hr => ⟨(h.out d r d' hfs hr).1, fun v hv => ⟨(h.out d r d' hfs hr).2.2 v hv, (h.out d r d' hfs hr).2.1⟩⟩⟩
+
+theorem NW.weaken {α} {fs0 : FsState} {p : Prog α} {Q Post : α → FsState → Prop} (h : NW fs0 p Q)
+    (hq : ∀ v fs1, Q v fs1 → Post v fs1) : NW fs0 p Post :=
+  ⟨fun d r d' hfs hr => ⟨(h.out d r d' hfs hr).1, fun v hv => hq v _ ((h.out d r d' hfs hr).2 v hv)⟩⟩
+
+theorem NW.pure {α} {fs0 : FsState} {Post : α → FsState → Prop} {a : α} (h : Post a fs0) :
+    NW fs0 (Prog.pure a) Post := by
+  refine ⟨fun d r d' hfs hr => ?_⟩; simp only [run] at hr; cases hr
+  exact ⟨SameWrites.refl _, fun v hv => by cases hv; rw [hfs]; exact h⟩
+
+theorem NW.fail {α} {fs0 : FsState} {Post : α → FsState → Prop} (e : Err) : NW fs0 (Prog.fail (α := α) e) Post := by
+  refine ⟨fun d r d' hfs hr => ?_⟩; simp only [run] at hr; cases hr
+  exact ⟨SameWrites.refl _, fun v hv => by cases hv⟩
+
+theorem NW.setFs {fs0 : FsState} (fs : FsState) : NW fs0 (Prog.setFs fs) (fun _ fs1 => fs1 = fs) := by
+  refine ⟨fun d r d' hfs hr => ?_⟩; simp only [Prog.setFs, run, stepOp] at hr; cases hr
+  exact ⟨⟨rfl, rfl⟩, fun v _ => rfl⟩
+
+theorem NW.bind {α β} {fs0 : FsState} {p : Prog β} {k : β → Prog α} {Q : β → FsState → Prop}
+    {Post : α → FsState → Prop} (hp : NW fs0 p Q) (hk : ∀ b fs1, Q b fs1 → NW fs1 (k b) Post) :
+    NW fs0 (Prog.bind p k) Post := by
+  refine ⟨fun d r d' hfs hr => ?_⟩
+  simp only [run] at hr
+  rcases hq : run p d with ⟨rp, d1⟩
+  rw [hq] at hr
+  have h1 := hp.out d _ _ hfs hq
+  cases rp with
+  | ok b =>
+    have h2 := (hk b d1.fs (h1.2 b rfl)).out d1 _ _ rfl hr
+    exact ⟨h1.1.trans h2.1, h2.2⟩
+  | error e => simp only at hr; cases hr; exact ⟨h1.1, fun v hv => by cases hv⟩
+
+/-- a read-only prefix -/
+theorem NW.bind_ro {α β} {fs0 : FsState} {p : Prog β} {k : β → Prog α} {Q : β → Prop}
+    {Post : α → FsState → Prop} (hp : RO fs0 p Q) (hk : ∀ b, Q b → NW fs0 (k b) Post) :
+    NW fs0 (Prog.bind p k) Post :=
+  NW.bind (NW.of_ro hp) (fun b fs1 h => by rw [h.2]; exact hk b h.1)
+
+theorem NW.modifyFs {fs0 : FsState} (f : FsState → FsState) :
+    NW fs0 (Prog.modifyFs f) (fun _ fs1 => fs1 = f fs0) := by
+  unfold Prog.modifyFs
+  refine NW.bind_ro RO.getFs (fun fs h => ?_)
+  subst h
+  exact NW.setFs _
+
+/-- bind-composition for `SameWrites` alone (no assumption on the mounted state) -/
+theorem sameWrites_bind {α β} {p : Prog β} {k : β → Prog α}
+    (hp : ∀ d r d', run p d = (r, d') → SameWrites d d')
+    (hk : ∀ b d r d', run (k b) d = (r, d') → SameWrites d d') :
+    ∀ d r d', run (Prog.bind p k) d = (r, d') → SameWrites d d' := by
+  intro d r d' hr
+  simp only [run] at hr
+  rcases hq : run p d with ⟨rp, d1⟩
+  rw [hq] at hr
+  cases rp with
+  | ok b => exact (hp _ _ _ hq).trans (hk b _ _ _ hr)
+  | error e => simp only at hr; cases hr; exact hp _ _ _ hq
+
+/-! ### generic composition of a device relation along a run -/
+
+/-- a relation between the device before and after that is reflexive, transitive and blind to the destructor depth -/
+structure RelOK (R : Dev → Dev → Prop) : Prop where
+  refl : ∀ d, R d d
+  trans : ∀ a b c, R a b → R b c → R a c
+  depth : ∀ (d : Dev) (n : Nat), R d { d with dropDepth := n }
+
+/-- every run of `p` relates the device before and after -/
+structure Steps (R : Dev → Dev → Prop) {α} (p : Prog α) : Prop where
+  out : ∀ (d : Dev) (r : Except Err α) (d' : Dev), run p d = (r, d') → R d d'
+
+theorem Steps.pure {R} (hR : RelOK R) {α} (a : α) : Steps R (Prog.pure a) :=
+  ⟨fun d r d' hr => by simp only [run] at hr; cases hr; exact hR.refl _⟩
+
+theorem Steps.fail {R} (hR : RelOK R) {α} (e : Err) : Steps R (Prog.fail (α := α) e) :=
+  ⟨fun d r d' hr => by simp only [run] at hr; cases hr; exact hR.refl _⟩
+
+theorem Steps.bind {R} (hR : RelOK R) {α β} {p : Prog β} {k : β → Prog α} (hp : Steps R p)
+    (hk : ∀ b, Steps R (k b)) : Steps R (Prog.bind p k) := by
+  refine ⟨fun d r d' hr => ?_⟩
+  simp only [run] at hr
+  rcases hq : run p d with ⟨rp, d1⟩
+  rw [hq] at hr
+  cases rp with
+  | ok b => exact hR.trans _ _ _ (hp.out _ _ _ hq) ((hk b).out _ _ _ hr)
+  | error e => simp only at hr; cases hr; exact hp.out _ _ _ hq
+
+theorem Steps.tryCatch {R} (hR : RelOK R) {α} {p : Prog α} {h : Err → Prog α} (hp : Steps R p)
+    (hh : ∀ e, Steps R (h e)) : Steps R (Prog.tryCatch p h) := by
+  refine ⟨fun d r d' hr => ?_⟩
+  simp only [run] at hr
+  rcases hq : run p d with ⟨rp, d1⟩
+  rw [hq] at hr
+  cases rp with
+  | ok a => simp only at hr; cases hr; exact hp.out _ _ _ hq
+  | error e =>
+    simp only at hr
+    split at hr
+    · cases hr; exact hp.out _ _ _ hq
+    · exact hR.trans _ _ _ (hp.out _ _ _ hq) ((hh e).out _ _ _ hr)
+
+theorem Steps.finallyDrop {R} (hR : RelOK R) {α} {p : Prog α} {c : Option α → Prog Unit} (hp : Steps R p)
+    (hc : ∀ o, Steps R (c o)) : Steps R (Prog.finallyDrop p c) := by
+  refine ⟨fun d r d' hr => ?_⟩
+  simp only [run] at hr
+  rcases hq : run p d with ⟨rp, d1⟩
+  rw [hq] at hr
+  have key : ∀ {o rc d2}, run (c o) { d1 with dropDepth := d1.dropDepth + 1 } = (rc, d2) →
+      R d { d2 with dropDepth := d2.dropDepth - 1 } := by
+    intro o rc d2 hcr
+    exact hR.trans _ _ _ (hR.trans _ _ _ (hp.out _ _ _ hq) (hR.trans _ _ _ (hR.depth d1 _) ((hc o).out _ _ _ hcr)))
+      (hR.depth d2 _)
+  cases rp with
+  | ok a =>
+    simp only at hr
+    rcases hcr : run (c (some a)) { d1 with dropDepth := d1.dropDepth + 1 } with ⟨rc, d2⟩
+    rw [hcr] at hr
+    cases rc with
+    | ok u => simp only at hr; cases hr; exact key hcr
+    | error e' => simp only at hr; split at hr <;> cases hr <;> exact key hcr
+  | error e =>
+    simp only at hr
+    split at hr
+    · cases hr; exact hp.out _ _ _ hq
+    · rcases hcr : run (c none) { d1 with dropDepth := d1.dropDepth + 1 } with ⟨rc, d2⟩
+      rw [hcr] at hr
+      cases rc with
+      | ok u => simp only at hr; cases hr; exact key hcr
+      | error e' => simp only at hr; split at hr <;> cases hr <;> exact key hcr
+
+/-- a relation every primitive step satisfies holds along every run -/
+theorem steps_of_ops {R} (hR : RelOK R) (hop : ∀ (o : Op) (d : Dev) r d', stepOp o d = (r, d') → R d d')
+    {α} (p : Prog α) : Steps R p := by
+  induction p with
+  | pure a => exact Steps.pure hR a
+  | fail e => exact Steps.fail hR e
+  | op o => exact ⟨fun d r d' hr => by simp only [run] at hr; exact hop o d r d' hr⟩
+  | bind p k ihp ihk => exact Steps.bind hR ihp ihk
+  | tryCatch p h ihp ihh => exact Steps.tryCatch hR ihp ihh
+  | finallyDrop p c ihp ihc => exact Steps.finallyDrop hR ihp ihc
+
+/-- the log only grows (newest first) -/
+def LogExtends (d d' : Dev) : Prop := ∃ items, d'.log = items ++ d.log
+
+theorem logExtends_ok : RelOK LogExtends where
+  refl := fun d => ⟨[], rfl⟩
+  trans := by
+    rintro a b c ⟨i1, h1⟩ ⟨i2, h2⟩
+    exact ⟨i2 ++ i1, by rw [h2, h1, List.append_assoc]⟩
+  depth := fun d n => ⟨[], rfl⟩
+
+theorem stepOp_logExtends (o : Op) (d : Dev) (r : Except Err (Resp o)) (d' : Dev) (hr : stepOp o d = (r, d')) :
+    LogExtends d d' := by
+  have hcnt : ∀ k, (d.count k).log = d.log := by
+    intro k; unfold Dev.count; cases k <;> simp
+  have dc : ∀ {β} (k : CallKind) (act : Dev → Except Err β × Dev),
+      (∀ d0 r d1, act d0 = (r, d1) → LogExtends d0 d1) →
+      ∀ {r d'}, devCall k d act = (r, d') → LogExtends d d' := by
+    intro β k act hact r d' h
+    unfold devCall devCallCore at h
+    split at h
+    · cases h; exact ⟨[], by simp [hcnt k]⟩
+    · obtain ⟨items, hi⟩ := hact _ _ _ h
+      exact ⟨items, by rw [hi, hcnt k]⟩
+  cases o with
+  | write bs => simp only [stepOp] at hr; exact dc _ _ (by intro d0 r d1 h; cases h; exact ⟨[_], rfl⟩) hr
+  | read n => simp only [stepOp] at hr; exact dc _ _ (by intro d0 r d1 h; cases h; exact ⟨[], rfl⟩) hr
+  | seek p =>
+    simp only [stepOp] at hr
+    refine dc _ _ ?_ hr
+    intro d0 r d1 h
+    cases p with
+    | start n => cases h; exact ⟨[], rfl⟩
+    | cur x => simp only at h; split at h <;> cases h <;> exact ⟨[], rfl⟩
+    | fromEnd x => simp only at h; split at h <;> cases h <;> exact ⟨[], rfl⟩
+  | flush => simp only [stepOp] at hr; exact dc _ _ (by intro d0 r d1 h; cases h; exact ⟨[_], rfl⟩) hr
+  | now => simp only [stepOp] at hr; cases hr; split <;> exact ⟨[], rfl⟩
+  | today => simp only [stepOp] at hr; cases hr; split <;> exact ⟨[], rfl⟩
+  | getFs => simp only [stepOp] at hr; cases hr; exact ⟨[], rfl⟩
+  | setFs fs => simp only [stepOp] at hr; cases hr; exact ⟨[], rfl⟩
+
+theorem run_logExtends {α} (p : Prog α) (d : Dev) (r : Except Err α) (d' : Dev) (hr : run p d = (r, d')) :
+    LogExtends d d' :=
+  (steps_of_ops logExtends_ok stepOp_logExtends p).out d r d' hr
+
 end FatVerif
